@@ -846,6 +846,9 @@ class C01(fw.Check):
         'valid segment = acyclic including state edges trainer -> applied forks of its group (D22 shapes are excluded), '
         'every apply port of every non-head member connected, tail without apply subscribers',
         'persistent list: duplicate free, in a training segment a subset of the groups trained in it',
+        'the theorems quantify over every visit order covering the members once (hypothesis order.Perm uids) instead of '
+        'proving that Traversal.each does so; the visited set is compared with the model and with a reachability oracle',
+        'the one-worker segment without any link is excluded (Segment.linked): known finding C01-F1',
         'uuid4 keys never collide',
     ]
 
